@@ -2,6 +2,7 @@ from __future__ import annotations
 
 import calendar
 import datetime
+import functools
 import traceback
 
 from typing import TYPE_CHECKING
@@ -1387,7 +1388,7 @@ class DateTime(datetime.datetime, Date):
     def __reduce__(
         self,
     ) -> tuple[
-        type[Self],
+        Callable[..., Self],
         tuple[int, int, int, int, int, int, int, datetime.tzinfo | None],
     ]:
         return self.__reduce_ex__(2)
@@ -1395,10 +1396,14 @@ class DateTime(datetime.datetime, Date):
     def __reduce_ex__(
         self, protocol: SupportsIndex
     ) -> tuple[
-        type[Self],
+        Callable[..., Self],
         tuple[int, int, int, int, int, int, int, datetime.tzinfo | None],
     ]:
-        return self.__class__, self._getstate(protocol)
+        # fold is keyword-only in the constructor, it cannot travel in the state
+        return (
+            functools.partial(self.__class__, fold=self.fold),
+            self._getstate(protocol),
+        )
 
     def __deepcopy__(self, _: dict[int, Self]) -> Self:
         return self.__class__(
